@@ -101,6 +101,24 @@ class Faults:
         return False
 
 
+def write_inplace_keep_mtime(root, rel, text):
+    """rewrites a file in place (same inode) with text of the same byte length and puts the old mtime back, as cp -p,
+    rsync --inplace -t or a deployment script that normalises time stamps does.  Only ctime tells (no user-space tool can
+    put it back); the function makes sure that it really differs from the old one (kernel time stamps are coarse)."""
+    import time
+    p = os.path.join(root, rel)
+    st = os.stat(p)
+    data = text.encode("utf-8")
+    assert len(data) == st.st_size, (rel, len(data), st.st_size)
+    with open(p, "r+b") as f:
+        f.write(data)
+    for _ in range(200):
+        os.utime(p, ns=(st.st_atime_ns, st.st_mtime_ns))
+        if os.stat(p).st_ctime_ns != st.st_ctime_ns:
+            break
+        time.sleep(0.002)
+
+
 def touch(root, rel):
     """a permission / ownership change shows in ctime: the stat version of the file changes"""
     p = os.path.join(root, rel)
@@ -134,6 +152,9 @@ def listing(tree, faults=None):
 
 _env = jinja2.Environment(autoescape=False, keep_trailing_newline=True,
                           extensions=["jinja2.ext.do", "jinja2.ext.loopcontrols"])
+
+
+_env.globals["peek"] = lambda: ""      # a function offered to the templates through template_config.context (see c12 "nested")
 
 
 def enc_res(r, payload):
